@@ -63,8 +63,10 @@ Theorem C07_contract : forall plans, (forall p, In p plans -> gplan clock clock_
 Proof. exact contract. Qed.
 Print Assumptions C07_contract.
 
-(** End to end: any number of threads, each running the fragment of a call site of the table under its
-    own valuation: documented-exclusive calls never overlap. *)
+(** FRAGMENT theorem: any number of threads, each running the fragment of ONE call site of the table (the
+    plan from the start of its handler to that site, the call, then releasing what is held) under its own
+    valuation: documented-exclusive calls never overlap.  That a whole handler execution is a succession of
+    such fragments (one per site reached, along the path the generator followed) is not proved here. *)
 Theorem C07_contract_sites : forall (ths : list (site * (snode -> node))),
   (forall st rho, In (st, rho) ths -> In st sites /\ respects rho (full_path st) /\ exists c, site_call rho st = Some c) ->
   forall s, reachable clock clock_eqb ccall ccall_eqb (map (fun x => site_thread (snd x) (fst x)) ths) s ->
@@ -99,3 +101,26 @@ Proof. vm_compute. auto. Qed.
 (** the valuation hypothesis [respects] is satisfiable for every site of the table *)
 Theorem C07_valuations_exist : forall st, In st sites -> respects rho_ex (full_path st).
 Proof. exact canonical_respects. Qed.
+
+(** "Same path => same path node": every fidRef the server builds (attach root, walk step, clone, create,
+    xattr walk) is given the path node its File lives on, and the parent fidRef of that node's parent —
+    read off the [fidRef{file:, pathNode:, parent:}] literals by the generator.  With pathNodeFor returning
+    one node per (directory node, name) this is what makes two fids on one path share their locks. *)
+Theorem C07_new_refs_ok : forall st, In st sites -> new_ref_ok st = true.
+Proof. exact new_refs_ok. Qed.
+Print Assumptions C07_new_refs_ok.
+
+(** The documented classes are pinned: the table read from the doc comments of file.go equals the
+    hand-written one (editing or deleting a "concurrency guarantee" sentence re-opens this obligation). *)
+Theorem C07_contract_pinned : contract_eqb LockGen.contract expected_contract = true.
+Proof. exact contract_pinned. Qed.
+Print Assumptions C07_contract_pinned.
+
+(** Completeness of the generated table against a hand-written inventory (Tables.expected_calls /
+    expected_access): every handler reaches the backend methods the protocol makes it reach and no others,
+    every File method the server may call is called somewhere, every guarded map shows its known access
+    sites, every kind of fidRef construction is present.  A call that drops out of the table (moved where
+    the generator does not follow, hidden behind a method value — both are refused anyway) breaks this. *)
+Theorem C07_tables_complete : calls_complete && access_complete && new_complete = true.
+Proof. exact tables_complete. Qed.
+Print Assumptions C07_tables_complete.
